@@ -7,7 +7,10 @@
        its lookahead tokens and pushes reduce/reduce records; then the edges
        are visited (again in a given order), rule edges fill the goto row,
        token edges resolve shift/reduce.  Every panic!/assert! is [Panic],
-       Err(AcceptReduceConflict) is [Done None].
+       Err(AcceptReduceConflict) is [Done None].  (After the loop over the
+       states the code sorts the shift/reduce vector by (state, token,
+       production); the mirror stops before that: only the SET of records is
+       claimed — [Permutation] in the theorems.)
    (2) the DECLARATIVE cell specification ([cell_spec], [sr_spec]) — executable
        so that the correspondence run can evaluate it on the implementation's
        own item sets.
